@@ -180,14 +180,73 @@ var templates = []string{
 	"go func() { for ci = 0; ci < 200; ci++ { fa = func(%p) { return 1 } } }()\ngo func() { for ck = 0; ck < 200; ck++ { fb = func(%p) { return 2 } } }()\nfor cj = 0; cj < 200; cj++ { fc = func(%p) { return 3 } }",
 	"func mk1() { return func(%p) { return 1 } }\nfunc mk2() { return func(%p) { return 2 } }\ngo mk1()\ngo mk2()\ngo mk1()\nmk2()",
 	"try { %s(%s) } catch e { e.Error() }", "try { throw %s } catch e { e = %s }", "module m2 { a = %s }; m2.a(%s)", "x = %s; x.y = %s", "x = %s; x[0] = %s; x",
+	// seventh round. (a) types whose values are large (%B defines BT, 8 bytes .. 1 MiB, without allocating one) in every type form
+	"%B\nmake(chan BT)", "%B\nmake(chan BT, %s)", "%B\nnew(chan BT)", "%B\n[]chan BT{}", "%B\nmake([]chan BT, 1)", "%B\nmake(map[string]chan BT)", "%B\nmake(map[BT]string)", "%B\nmake(struct{A chan BT, B BT})", "%B\nmake(*BT)", "%B\nmake([]BT, 0)", "%B\nmake(type BU, make(chan BT))",
+	"%B\nx = make(chan *BT, 1)\nx <- %s", "%B\nfunc bf(a) { return make(chan BT) }\nbf(1)", "%B\ngo func() { make(chan BT) }()", "%B\ntry { make(chan BT) } catch e { e.Error() }",
+	// (b) a statement holds a container that sits in a slot (struct field, element of a [][]int64, pointee) while a
+	// target, an index or a later operand replaces what is in the slot by something shorter
+	"%Z\nx = [0, 0]\nx[fz()], y = %z", "%Z\nx = [0, 0]\nx[fz()], y, w = %z", "%Z\nx = {}\nx[fz()], x.b = %z", "%Z\nvar a, b = %z, fz()", "%Z\na, b = %z, fz()\na[1]", "%Z\nfor v in %z { fz() }", "%Z\nfor i, v in %z { fz(); [i, v] }",
+	"%Z\n%z[fz():]", "%Z\n%z[1:fz() + 2]", "%Z\n%z[fz() + 1]", "%Z\n%z[1] = fz()", "%Z\n%z[fz() + 1] = 5", "%Z\n%z[fz():2] = [7]", "%Z\n%z + [fz()]", "%Z\n%z += [fz()]", "%Z\nlen(%z) + fz()", "%Z\n(fz() in %z)", "%Z\n(%z[1] in [fz()])",
+	"%Z\nfunc fy(a, b) { return a[1] }\nfy(%z, fz())", "%Z\nfunc fy(a...) { return a[0][1] }\nfy(%z, fz())", "%Z\ndefer func(a, b) { a[1] }(%z, fz())", "%Z\ngo func(a, b) { a[1] }(%z, fz())", "%Z\ntakesInt(%z[1], fz())", "%Z\nswitch %z[1] { case fz(): 1 }", "%Z\n[%z[1], fz()]", "%Z\nreturn %z[1], fz()",
 }
+
+// bigTypeDefs defines the type BT: a struct of structs ... of int64 fields, 8 bytes times fan^levels.
+func bigTypeDefs(levels, fan int) string {
+	var b strings.Builder
+	prev := "int64"
+	for l := 1; l <= levels; l++ {
+		name := fmt.Sprintf("BT%d", l)
+		if l == levels {
+			name = "BT"
+		}
+		var fs []string
+		for k := 0; k < fan; k++ {
+			fs = append(fs, fmt.Sprintf("F%d %s", k, prev))
+		}
+		fmt.Fprintf(&b, "make(type %s, make(struct{%s}))\n", name, strings.Join(fs, ", "))
+		prev = name
+	}
+	return strings.TrimSuffix(b.String(), "\n")
+}
+
+// slots that hold a list of two int64, and the statements that replace the content of the slot
+var slotDefs = [][2]string{
+	{"sz = make(struct{A []int64})\nsz.A = [1, 2]", "sz.A"},
+	{"sz = make([][]int64, 1)\nsz[0] = [1, 2]", "sz[0]"},
+	{"sz = new([]int64)\n*sz = [1, 2]", "*sz"},
+	{"sz = {\"a\": [1, 2]}", "sz.a"},
+	{"sz = [[1, 2]]", "sz[0]"},
+	{"sz = make([]interface, 1)\nsz[0] = []int64{1, 2}", "sz[0]"},
+}
+var slotShrinks = []string{"make([]int64, 0)", "[]", "nil", "[]int64{9}", "make([]int64, 0, 8)", "\"\"", "0"}
 
 func (c *Case) fill(t *rapid.T, tmpl string) string {
 	var b strings.Builder
+	slot := 0
 	for i := 0; i < len(tmpl); i++ {
 		if tmpl[i] == '%' && i+1 < len(tmpl) {
 			if tmpl[i+1] == 's' {
 				b.WriteString(genOperand(t, 1))
+				i++
+				continue
+			}
+			if tmpl[i+1] == 'B' {
+				// 8 bytes * fan^levels: 8 B .. 1 MiB, around the 64 KiB limit of a channel element among them
+				sizes := [][2]int{{1, 1}, {2, 16}, {3, 16}, {4, 16}, {3, 20}, {3, 21}, {4, 8}, {2, 90}, {2, 91}, {4, 19}}
+				sz := sizes[int(rapid.Uint64().Draw(t, "bigtype")%uint64(len(sizes)))]
+				b.WriteString(bigTypeDefs(sz[0], sz[1]))
+				i++
+				continue
+			}
+			if tmpl[i+1] == 'Z' {
+				slot = int(rapid.Uint64().Draw(t, "slot") % uint64(len(slotDefs)))
+				shrink := slotShrinks[int(rapid.Uint64().Draw(t, "shrink")%uint64(len(slotShrinks)))]
+				b.WriteString(slotDefs[slot][0] + "\nfunc fz() { " + slotDefs[slot][1] + " = " + shrink + "; return 0 }")
+				i++
+				continue
+			}
+			if tmpl[i+1] == 'z' {
+				b.WriteString(slotDefs[slot][1])
 				i++
 				continue
 			}
